@@ -68,6 +68,9 @@ def run(chk):
         e = p.end[1]
         site = f"{oci.mod.rel}:{p.end[2]}"
         f = path_facts(p)
+        e, floors = scales.peel_floor(e)
+        if floors:
+            chk.bad("C03.R3", site, qn, "scale has a lower bound", f"{qn}: the scale is floored ({floors}): for a row whose absmax is below qmax x floor the scale is larger than absmax/qmax", "a row (or tensor) of very small magnitude: the codes use a fraction of the range")
         if not (isinstance(e, ast.BinOp) and isinstance(e.op, ast.Div)):
             chk.bad("C03.R3", site, qn, "scale is a quotient", f"{qn} returns `{U(e)[:70]}`, not range / qmax", "any tensor")
             continue
@@ -141,7 +144,11 @@ def run(chk):
             continue
         e = p.end[1]
         site = f"{mi_a.rel}:{p.end[2]}"
+        e, floors = scales.peel_floor(e)
+        if floors:
+            chk.bad("C03.R3", site, "absmax_scale", "scale has a lower bound", f"absmax_scale: the scale is floored ({floors}): for a tensor whose absmax is below qmax x floor the scale is larger than absmax/qmax", "activations (or a row) of very small magnitude, e.g. absmax < 1.5e-5 in float32 with an eps floor: the codes use a fraction of the range")
         if not (isinstance(e, ast.BinOp) and isinstance(e.op, ast.Div)):
+            chk.bad("C03.R3", site, "absmax_scale", "scale is a quotient", f"absmax_scale returns `{U(e)[:70]}`, not range / qmax", "any tensor")
             continue
         r = scales.reduction(e.left)
         f = path_facts(p)
